@@ -1278,7 +1278,11 @@ impl<'a> CompilerState<'a> {
                             Rule::array_spec => {
                                 start = p.as_span().start();
                                 if let Some(px) = p.into_inner().next() {
-                                    size = Some(self.parse_calc(px.into_inner())? as usize);
+                                    let s = self.parse_calc(px.into_inner())?;
+                                    if s < 0 {
+                                        return Err(self.syntax_error("Negative array size", start));
+                                    }
+                                    size = Some(s as usize);
                                 }
                                 if var_type == VariableType::Char {
                                     var_type = VariableType::CharPtr;
@@ -1795,7 +1799,11 @@ impl<'a> CompilerState<'a> {
                                     Rule::array_spec => {
                                         start = p.as_span().start();
                                         if let Some(px) = p.into_inner().next() {
-                                            size = Some(self.parse_calc(px.into_inner())? as usize);
+                                            let s = self.parse_calc(px.into_inner())?;
+                                            if s < 0 {
+                                                return Err(self.syntax_error("Negative array size", start));
+                                            }
+                                            size = Some(s as usize);
                                         }
                                         if var_type == VariableType::Char {
                                             var_type = VariableType::CharPtr;
@@ -2109,7 +2117,11 @@ impl<'a> CompilerState<'a> {
                                 Rule::array_spec => {
                                     start = pair.as_span().start();
                                     if let Some(px) = pair.into_inner().next() {
-                                        size = Some(self.parse_calc(px.into_inner())? as usize);
+                                        let s = self.parse_calc(px.into_inner())?;
+                                        if s < 0 {
+                                            return Err(self.syntax_error("Negative array size", start));
+                                        }
+                                        size = Some(s as usize);
                                     }
                                     if var_type == VariableType::Char {
                                         var_type = VariableType::CharPtr;
